@@ -92,7 +92,10 @@ class Ctx:
             self.notes["generated_tables_changed"] = gen_tables.regenerate_all()
         except Exception as e:  # noqa
             self.broken.append({"kind": "table generation", "detail": repr(e)})
-        ok, out = core.lake_build()
+        # build only what this property depends on (plus the driver), so that a change to some
+        # other part of the repository cannot trip this property's obligations
+        modules = entry.get("modules", [])
+        ok, out = core.lake_build(tuple(["driver"] + modules))
         if not ok:
             self.broken.append({"kind": "lake build", "detail": out[-3000:]})
             # the driver may still exist from the previous build of unchanged model files
@@ -100,12 +103,21 @@ class Ctx:
         # forbidden constructs in the sources (comments stripped)
         bad = []
         # every module of the development = every import of the root module Mathy.lean
-        root_src = open(os.path.join(VERIF, "lean", "Mathy.lean")).read()
-        mods = re.findall(r"^import (Mathy\.[\w.]+)", root_src, re.M)
-        for mod in mods:
+        # every module this property's theorems depend on: import closure of its modules
+        todo, mods = list(modules), []
+        while todo:
+            mod = todo.pop()
+            if mod in mods:
+                continue
+            mods.append(mod)
             path = os.path.join(VERIF, "lean", *mod.split(".")) + ".lean"
-            src = strip_comments(open(path).read())
-            m = FORBIDDEN.search(src)
+            try:
+                src = open(path).read()
+            except OSError:
+                bad.append(f"missing module {mod}")
+                continue
+            todo += re.findall(r"^import (Mathy\.[\w.]+)", src, re.M)
+            m = FORBIDDEN.search(strip_comments(src))
             if m:
                 bad.append(f"{os.path.relpath(path, VERIF)}: {m.group(0).strip()}")
         self.notes["modules_scanned"] = len(mods)
@@ -114,7 +126,7 @@ class Ctx:
         if not theorems:
             return ok
         # axiom audit
-        audit_src = "import Mathy\n" + "".join(f"#print axioms {t}\n" for t in theorems)
+        audit_src = "".join(f"import {m}\n" for m in modules) + "".join(f"#print axioms {t}\n" for t in theorems)
         audit_path = os.path.join(VERIF, "lean", f".audit_{self.pid}.lean")
         open(audit_path, "w").write(audit_src)
         try:
